@@ -17,9 +17,12 @@
     some thread can take a step". Go's sync.RWMutex blocks new readers behind a waiting writer; the
     only extra waiting that adds is a reader waiting, on a mutex it does not hold, for a writer that
     waits for readers of that same mutex - covered by the same order argument on paper (a thread
-    that holds a FeeQuote mutex acquires nothing), but NOT by these theorems. *)
+    that holds a FeeQuote mutex acquires nothing), and, since the last
+    session, by theorems about a second machine WITH writer preference (model/LocksWP.v; the C18_wp_* statements at the end
+    of this file). *)
 From Coq Require Import List String Bool Arith PeanoNat.
 From GoBT Require Import model.Locks spec.RaceSpec proofs.LocksProofs proofs.AuditD18 proofs.LocksDeadlock.
+From GoBT Require Import model.SharedScript proofs.SharedScriptProofs.
 From GoBT Require gen.Locks gen.Globals.
 Import ListNotations.
 Local Open Scope string_scope.
@@ -95,6 +98,49 @@ Theorem C18_concurrent_equals_sequential : forall gl ef fr, shares_nothing gl ef
   ~ racy s /\ forall t, prog (thr s t) = [] -> log (thr s t) = seq_log mem0 (P t) [].
 Proof. exact concurrent_equals_sequential_proof. Qed.
 Print Assumptions C18_concurrent_equals_sequential.
+
+(** The confinement hypothesis cannot be dropped for writes that are UNDONE. Different transactions may name one
+    script object (outputs with the same script, interned); an operand the interpreter pops is a slice of the
+    script that pushed it. A validation that rearranges such an operand in place and puts the old bytes back
+    ([restoring]) is indistinguishable from one that works on a copy as long as validations run one after the other
+    (first statement: both orders give every validation the log it has alone and leave the script as it was), it
+    is NOT confined (second), and beside it a validation that only READS the same script object can finish with a
+    log different from the one it has alone (third: there is a reachable state; the rearranged bytes, or - read in
+    the middle of the write - any value at all). The run-time side is the read-only-memory probe of the harness
+    (corr case CReadOnly) and the rounds in which several transactions name one script object. *)
+Theorem C18_write_and_restore_invisible_sequentially : forall k tmp orig g,
+  let P := two (restoring k tmp orig) (reading k) in
+  let m0 := fun _ : loc => orig in
+  option_map (fun s => (log (thr s 0), log (thr s 1), cval (mem s (script_loc k))))
+    (run (init_state m0 P) [(0,g);(0,g);(0,g);(0,g);(0,g);(1,g)])
+    = Some (seq_log m0 (P 0) [], seq_log m0 (P 1) [], orig) /\
+  option_map (fun s => (log (thr s 0), log (thr s 1), cval (mem s (script_loc k))))
+    (run (init_state m0 P) [(1,g);(0,g);(0,g);(0,g);(0,g);(0,g)])
+    = Some (seq_log m0 (P 0) [], seq_log m0 (P 1) [], orig).
+Proof. exact restoring_invisible_sequentially. Qed.
+Print Assumptions C18_write_and_restore_invisible_sequentially.
+
+Theorem C18_write_into_shared_script_not_confined : forall G F t k tmp orig,
+  existsb (String.eqb script_bytes) G = false -> confined G F t (restoring k tmp orig) = false.
+Proof. exact restoring_not_confined. Qed.
+Print Assumptions C18_write_into_shared_script_not_confined.
+
+Theorem C18_write_and_restore_breaks_equality : forall k tmp orig, tmp <> orig ->
+  let P := two (restoring k tmp orig) (reading k) in
+  let m0 := fun _ : loc => orig in
+  confined [] [] 1 (P 1) = true /\
+  exists s, reachable (init_state m0 P) s /\ prog (thr s 1) = [] /\ log (thr s 1) <> seq_log m0 (P 1) [].
+Proof. exact write_and_restore_breaks_equality. Qed.
+Print Assumptions C18_write_and_restore_breaks_equality.
+
+(** ... and read in the middle of the write, the other validation reads ANY value [g] *)
+Theorem C18_write_and_restore_read_torn : forall k tmp orig g,
+  let P := two (restoring k tmp orig) (reading k) in
+  option_map (fun s => (prog (thr s 1), log (thr s 1)))
+    (run (init_state (fun _ => orig) P) [(0,g);(1,g)])
+    = Some ([], [(script_loc k, g)]).
+Proof. exact restoring_observable_torn. Qed.
+Print Assumptions C18_write_and_restore_read_torn.
 
 (** SENSITIVITY of the one obligation that depends on fees.go (audit D), exhaustively on the GENERATED table:
     deleting any single RLock/Lock, or any single RUnlock/Unlock, from any path of any method makes
@@ -324,3 +370,166 @@ Theorem C18_no_mutable_package_state :
   StateInventory.rg_mutated g = false /\ StateInventory.rg_escapes g = false.
 Proof. apply StateInventory.pkg_state_ok_spec. vm_compute. reflexivity. Qed.
 Print Assumptions C18_no_mutable_package_state.
+
+(* ------------------------------------------------------------------------------------------ *)
+(** WRITER PREFERENCE (closes the open item "writer preference of Go's RWMutex (not in the machine)").
+    model/LocksWP.v is the machine above with Go's rule added: a thread's Lock() is split into ANNOUNCE
+    (always enabled; the thread enters the mutex' pending set [pend]) and ACQUIRE (enabled when no reader and no
+    writer holds); RLock() is enabled only when no writer holds AND no writer is pending; everything else is the
+    old step. Not modelled: the order among several pending writers, the hand-over of the read lock at Unlock,
+    fairness (see the header of model/LocksWP.v for why this is on the safe side). Proofs: proofs/LocksWPProofs.v.
+    The statements are about [wreachable] / [wstep] / [wstuck]; [base w] is the state of the old machine. *)
+From GoBT Require Import model.LocksWP proofs.LocksWPProofs.
+
+(** the new machine only removes behaviours: a step is an announce (invisible in the old state) or the old step
+    of the same thread; every reachable state lies over a reachable state of the old machine; every schedule,
+    announces erased, is a schedule of the old machine *)
+Theorem C18_wp_step_projects : forall w t g w', wstep w t g = Some w' ->
+  base w' = base w \/ step (base w) t g = Some (base w').
+Proof. exact wstep_projects. Qed.
+Print Assumptions C18_wp_step_projects.
+
+Theorem C18_wp_reachable_projects : forall w0 w, wreachable w0 w -> reachable (base w0) (base w).
+Proof. exact wreachable_projects. Qed.
+Print Assumptions C18_wp_reachable_projects.
+
+Theorem C18_wp_run_projects : forall sched w w', wrun w sched = Some w' ->
+  exists sched', run (base w) sched' = Some (base w') /\ (List.length sched' <= List.length sched)%nat.
+Proof. exact wrun_projects. Qed.
+Print Assumptions C18_wp_run_projects.
+
+Theorem C18_wp_run_reachable : forall sched w w', wrun w sched = Some w' -> wreachable w w'.
+Proof. exact wrun_wreachable. Qed.
+Print Assumptions C18_wp_run_reachable.
+
+(** SAFETY under writer preference, for every table accepted by [well_locked] *)
+Theorem C18_wp_well_locked_race_free : forall tbl, well_locked tbl = true ->
+  forall (mem0 : loc -> value) (P : tid -> list call), (forall t, forallb call_ok (P t) = true) ->
+  forall w, wreachable (winit mem0 (call_progs tbl P)) w -> ~ racy (base w).
+Proof. exact wp_well_locked_race_free_proof. Qed.
+Print Assumptions C18_wp_well_locked_race_free.
+
+Theorem C18_wp_reads_see_writes : forall tbl, well_locked tbl = true ->
+  forall (mem0 : loc -> value) (P : tid -> list call), (forall t, forallb call_ok (P t) = true) ->
+  forall w, wreachable (winit mem0 (call_progs tbl P)) w -> reads_from_writes mem0 (base w).
+Proof. exact wp_reads_see_writes_proof. Qed.
+Print Assumptions C18_wp_reads_see_writes.
+
+Theorem C18_wp_reads_see_newest_write : forall tbl, well_locked tbl = true ->
+  forall (mem0 : loc -> value) (P : tid -> list call), (forall t, forallb call_ok (P t) = true) ->
+  forall w, wreachable (winit mem0 (call_progs tbl P)) w ->
+  forall t g w' o f rest, prog (thr (base w) t) = GRead o f :: rest -> wstep w t g = Some w' ->
+  log (thr (base w') t) = ((o, f), newest mem0 (base w) (o, f)) :: log (thr (base w) t).
+Proof. exact wp_reads_see_newest_proof. Qed.
+Print Assumptions C18_wp_reads_see_newest_write.
+
+(** DEADLOCK FREEDOM under writer preference. It does not follow from the projection (the new machine has one
+    more way of waiting) and is proved again. The EXISTING checkers suffice - no extra ordering condition: a
+    thread that cannot step waits, directly or through a pending writer (which is positioned at its Lock of that
+    mutex), for a thread that HOLDS the mutex, or that pending writer can acquire right now; holders are
+    ordered as before (nothing is acquired under a FeeQuote's mutex). *)
+Theorem C18_wp_well_locked_ordered_deadlock_free : forall tbl, well_locked tbl = true -> lock_ordered tbl = true ->
+  forall (mem0 : loc -> value) (P : tid -> list call), (forall t, forallb call_ok (P t) = true) ->
+  forall w, wreachable (winit mem0 (call_progs tbl P)) w -> ~ wstuck w.
+Proof. exact wp_deadlock_free_proof. Qed.
+Print Assumptions C18_wp_well_locked_ordered_deadlock_free.
+
+(** positively: in every reachable state in which some thread has work left, some thread can take a step *)
+Theorem C18_wp_well_locked_ordered_progress : forall tbl, well_locked tbl = true -> lock_ordered tbl = true ->
+  forall (mem0 : loc -> value) (P : tid -> list call), (forall t, forallb call_ok (P t) = true) ->
+  forall w, wreachable (winit mem0 (call_progs tbl P)) w ->
+  (exists t, prog (thr (base w) t) <> []) -> exists t w', wstep w t 0 = Some w'.
+Proof. exact wp_progress_proof. Qed.
+Print Assumptions C18_wp_well_locked_ordered_progress.
+
+(** the waiting writer preference adds, spelled out: a reader positioned at RLock of [o] while [tw] is pending
+    on [o] cannot step; then [tw] can acquire right now, or [o] is held by another thread [t1] which can step
+    or is acquiring a FeeQuote's mutex [o1] under the container's mutex [o], and every holder of [o1] can step *)
+Theorem C18_wp_reader_behind_writer : forall tbl, well_locked tbl = true -> lock_ordered tbl = true ->
+  forall (mem0 : loc -> value) (P : tid -> list call), (forall t, forallb call_ok (P t) = true) ->
+  forall w, wreachable (winit mem0 (call_progs tbl P)) w ->
+  forall t o rest tw, prog (thr (base w) t) = GAcq o MR :: rest -> In tw (pend w o) ->
+    wstep w t 0 = None /\
+    ((exists w', wstep w tw 0 = Some w') \/
+     (exists t1 m1, In (o, m1) (held (thr (base w) t1)) /\ t1 <> t /\
+        ((exists w', wstep w t1 0 = Some w') \/
+         (exists o1 m r1, prog (thr (base w) t1) = GAcq o1 m :: r1 /\ is_leaf o = false /\ is_leaf o1 = true /\
+            forall t2 m2, In (o1, m2) (held (thr (base w) t2)) -> exists w', wstep w t2 0 = Some w')))).
+Proof. exact wp_reader_behind_writer_proof. Qed.
+Print Assumptions C18_wp_reader_behind_writer.
+
+(** a pending writer is positioned at its Lock() of that mutex, in every reachable state of any program *)
+Theorem C18_wp_pending_is_at_lock : forall mem0 progs w, wreachable (winit mem0 progs) w ->
+  forall o t, In t (pend w o) -> exists rest, prog (thr (base w) t) = GAcq o MW :: rest.
+Proof. intros mem0 progs w Hr. exact (wreachable_PInv _ _ (winit_PInv mem0 progs) Hr). Qed.
+Print Assumptions C18_wp_pending_is_at_lock.
+
+(** ... for fees.go as it is now (the GENERATED table, the same two obligations as above) *)
+Theorem C18_wp_fee_quotes_race_free : forall tbl, dec_table gen.Locks.fee_methods = Some tbl ->
+  forall (mem0 : loc -> value) (P : tid -> list call), (forall t, forallb call_ok (P t) = true) ->
+  forall w, wreachable (winit mem0 (call_progs tbl P)) w -> ~ racy (base w) /\ reads_from_writes mem0 (base w).
+Proof. exact (wp_fee_quotes_race_free_from C18_table_is_well_locked). Qed.
+Print Assumptions C18_wp_fee_quotes_race_free.
+
+Theorem C18_wp_fee_quotes_deadlock_free : forall tbl, dec_table gen.Locks.fee_methods = Some tbl ->
+  forall (mem0 : loc -> value) (P : tid -> list call), (forall t, forallb call_ok (P t) = true) ->
+  forall w, wreachable (winit mem0 (call_progs tbl P)) w ->
+  ~ wstuck w /\ ((exists t, prog (thr (base w) t) <> []) -> exists t w', wstep w t 0 = Some w').
+Proof. exact (wp_fee_quotes_deadlock_free_from C18_table_is_well_locked C18_fee_table_lock_ordered). Qed.
+Print Assumptions C18_wp_fee_quotes_deadlock_free.
+
+(** WHY the rule "no acquire of a mutex already held" of [well_locked] is needed for READ locks: FeeQuote with
+    Expired written as "RLock; Expiry(); RUnlock" (Expiry read-locks the same mutex) is rejected by the checker
+    (and accepted with the nesting removed); run anyway, one thread in Expired and one in UpdateExpiry reach,
+    WITH writer preference, a state where nobody can step: the reader holds, the writer has announced and waits
+    for the reader, the reader's nested RLock is kept out by the pending writer. *)
+Theorem C18_wp_recursive_rlock_deadlocks :
+  well_locked_raw rr_raw = false /\ well_locked_raw rr_flat_raw = true /\
+  (forall t, forallb call_ok (rr_P t) = true) /\
+  exists w, wreachable (winit (fun _ => 0) (call_progs rr_table rr_P)) w /\ wstuck w /\
+            prog (thr (base w) 0) = tl rr_p0 /\ prog (thr (base w) 1) = rr_p1 /\ pend w o7 = [1].
+Proof. exact wp_recursive_rlock_deadlocks_proof. Qed.
+Print Assumptions C18_wp_recursive_rlock_deadlocks.
+
+(** WITHOUT writer preference the same two threads never get stuck (every reachable state, every schedule), and
+    the schedule that is stuck above, its announce erased, runs to the end *)
+Theorem C18_old_machine_recursive_rlock_progresses :
+  (forall s, reachable (init_state (fun _ => 0) (call_progs rr_table rr_P)) s ->
+     (exists t, prog (thr s t) <> []) -> exists t s', step s t 0 = Some s') /\
+  (forall s, reachable (init_state (fun _ => 0) (call_progs rr_table rr_P)) s -> ~ stuck s) /\
+  option_map (fun s => (prog (thr s 0), prog (thr s 1), log (thr s 0)))
+    (run (init_state (fun _ => 0) (call_progs rr_table rr_P)) [(0,0);(0,0);(0,0);(0,0);(0,0);(1,0);(1,0);(1,0);(1,0)])
+  = Some ([], [], [((o7, "expiryTime"), 0)]).
+Proof. exact old_machine_recursive_rlock_progresses_proof. Qed.
+Print Assumptions C18_old_machine_recursive_rlock_progresses.
+
+(** Non-vacuity of the writer-preference theorems, on the GENERATED table: the hypotheses hold of it
+    ([C18_table_is_well_locked], [C18_fee_table_lock_ordered], [dec_table] answers [Some]); four threads run to
+    completion through two announce steps with the reads 5 before / 42 after the write; and the machine does
+    differ from the old one on this table: after "thread 1 RLocks the container, thread 0 announces its Lock"
+    thread 3's RLock of the container cannot step here while it can in the old machine *)
+Example C18_wp_model_runs :
+  (forall t, forallb call_ok (wp_P t) = true) /\
+  option_map (fun w => (wstep w 3 0, match step (base w) 3 0 with Some _ => true | None => false end,
+                        pend w (TFeeQuotes, 0)))
+    (wrun (winit (fun _ => 5) (call_progs fee_table wp_P)) [(1,99);(0,99)])
+  = Some (None, true, [0]) /\
+  option_map (fun w => (wstep w 0 0, pend w (TFeeQuote, 7)))
+    (wrun (winit (fun _ => 5) (call_progs fee_table wp_P)) (firstn 11 wp_sched))
+  = Some (None, [0]) /\
+  option_map (fun w => (map (fun t => (prog (thr (base w) t), log (thr (base w) t))) [0;1;2;3],
+                        pend w (TFeeQuotes, 0), pend w (TFeeQuote, 7)))
+    (wrun (winit (fun _ => 5) (call_progs fee_table wp_P)) wp_sched)
+  = Some ([([], [((TFeeQuotes, 0, "quotes"), 5)]);
+           ([], [((TFeeQuote, 7, "fees"), 5); ((TFeeQuotes, 0, "quotes"), 5)]);
+           ([], [((TFeeQuote, 7, "fees"), 42); ((TFeeQuote, 7, "fees"), 5)]);
+           ([], [((TFeeQuote, 7, "fees"), 42); ((TFeeQuotes, 0, "quotes"), 5)])], [], []).
+Proof. exact wp_model_runs_proof. Qed.
+
+Example C18_wp_hypotheses_satisfiable :
+  (exists tbl, dec_table gen.Locks.fee_methods = Some tbl /\ well_locked tbl = true /\ lock_ordered tbl = true /\ tbl <> []) /\
+  well_locked_raw rr_raw = false /\ lock_ordered rr_table = false.
+Proof.
+  split; [|exact rr_rejected_by_both].
+  exists fee_table. split; [reflexivity|]. split; [vm_compute; reflexivity|]. exact fee_table_lock_ordered.
+Qed.
